@@ -14,56 +14,91 @@
 (* accepted iff l reaches Len(Trace) + 1 (TLC is then stopped).  If no behaviour gets there   *)
 (* the search space is exhausted and the high-water mark HW = the largest line index reached  *)
 (* names the first line that NO placement of the silent steps explains.                       *)
-(* Reduction (sound and complete).  Take any placement and move every Lin step as far to the  *)
-(* right as the order of the Lin steps and "before the thread's own ret line" allow (a Lin     *)
-(* step commutes with inv lines and with ret lines of other threads to its right).  Then every *)
-(* Lin step is followed by another Lin step or by its own thread's ret line.  So silent steps   *)
-(* are only tried when the next line is the ret of a thread T that has not taken effect yet,   *)
-(* in a chain that ends with T's (last) Lin step.  The disjuncts are ordered so that the      *)
-(* depth-first queue tries the shortest chain first.                                          *)
+(*                                                                                         *)
+(* Search reductions (each sound and complete for "some placement exists"):                  *)
+(*  R1 look-ahead: the result a call will return is in the log (its ret line), so a Lin step  *)
+(*     whose result differs from it is never taken (want[t], found when the inv is consumed). *)
+(*  R2 read-only calls (Get, Has, Iterate, IterateKeys, Flush) change nothing, so any instant  *)
+(*     between inv and ret at which the map yields the logged result is as good as any other:  *)
+(*     their Lin step is taken at the FIRST such instant, deterministically, before anything   *)
+(*     else happens (no branching on reads; a read whose result never shows up blocks its ret).*)
+(*  R3 the other (mutating) Lin steps are moved as far to the right as their order and "before *)
+(*     the thread's own ret line" allow (a Lin step commutes with inv lines and with ret lines *)
+(*     of other threads to its right; the reads between them move along, seeing the same map). *)
+(*     Then every mutating Lin step is followed by another one, or by the ret line of its own  *)
+(*     thread, or by the (eager) Lin step and the ret line of a read that needed it.  So they  *)
+(*     are only tried when the next line is the ret of a thread that has not taken effect yet. *)
+(* The disjuncts are ordered so that the depth-first queue tries the shortest chain first.    *)
 (* Run with -workers 1 and the depth-first state queue.                                       *)
 EXTENDS KVStoreConc, Json
 
 CONSTANTS Explain       \* TRUE: print what the model allows where a ret line does not match (second pass)
 
-VARIABLE l
-tvars == <<cfg, store, closed, batches, ev, pc, call, res, todo, l>>
+VARIABLES l,            \* index of the next line
+          want          \* thread -> the result its pending call returns later in the log (look-ahead)
+tvars == <<cfg, store, closed, batches, ev, pc, call, res, todo, l, want>>
 TView == <<cfg, store, closed, pc, call, res, todo, l>>
 
 Trace == ndJsonDeserialize("trace.ndjson")
 N     == Len(Trace)
 
+ReadOnlyOps == {"Get", "Has", "Iterate", "IterateKeys", "Flush"}
+
+(* the result of the call invoked by thread t at line i: its next ret line inside the history *)
+RECURSIVE WantOf(_, _)
+WantOf(t, i) == IF i > N \/ Trace[i].op \in {"reset", "final"} THEN NoRes
+                ELSE IF Trace[i].op = "ret" /\ Trace[i].t = t THEN Trace[i].res
+                ELSE WantOf(t, i + 1)
+
 Mark(n) == /\ (TLCGet(1) < n => TLCSet(1, n))
            /\ (n > N => PrintT(<<"ACCEPTED", n>>) /\ TLCSet("exit", TRUE))
-Expected(t) == Explain => PrintT(<<"EXPECTED", ToJson([l |-> l, t |-> t, res |-> res[t]])>>)
 
 TInit == /\ l = 2
          /\ TLCSet(1, 2)
          /\ ConcInit
          /\ cfg = Trace[1].cfg
+         /\ want = [t \in Threads |-> NoRes]
 
 Consume ==
   /\ l <= N
   /\ l' = l + 1
   /\ LET e == Trace[l] IN
-     CASE e.op = "reset" -> Do(e) /\ ThreadsReset
-       [] e.op = "inv"   -> Invoke(e.t, e.call)
+     CASE e.op = "reset" -> Do(e) /\ ThreadsReset /\ want' = [t \in Threads |-> NoRes]
+       [] e.op = "inv"   -> Invoke(e.t, e.call) /\ want' = [want EXCEPT ![e.t] = WantOf(e.t, l + 1)]
        [] e.op = "ret"   -> /\ pc[e.t] = "lin"
-                            /\ (res[e.t] = e.res \/ (Expected(e.t) /\ FALSE))
+                            /\ res[e.t] = e.res
                             /\ Return(e.t)
+                            /\ UNCHANGED want
        [] e.op = "final" -> /\ e.finished = TRUE                      \* no call hangs
                             /\ \A t \in Threads : pc[t] = "idle"
-                            /\ UNCHANGED <<vars, cvars>>
+                            /\ UNCHANGED <<vars, cvars, want>>
   /\ Mark(l')
+
+(* a Lin step of t that produces the logged result (for a Commit: its last step does) *)
+WantedLin(t) == /\ Lin(t)
+                /\ pc'[t] = "lin" => res'[t] = want[t]
+                /\ UNCHANGED <<l, want>>
+
+EagerLin(t) == pc[t] = "invoked" /\ call[t].op \in ReadOnlyOps /\ WantedLin(t)
+EagerSet    == {t \in Threads : pc[t] = "invoked" /\ call[t].op \in ReadOnlyOps /\ ENABLED EagerLin(t)}
 
 Silent == /\ l <= N
           /\ Trace[l].op = "ret"
           /\ pc[Trace[l].t] # "lin"
-          /\ UNCHANGED l
-          /\ \/ \E t \in Threads \ {Trace[l].t} : Lin(t)
-             \/ Lin(Trace[l].t)
+          /\ \/ \E t \in Threads \ {Trace[l].t} : call[t].op \notin ReadOnlyOps /\ WantedLin(t)
+             \/ (call[Trace[l].t].op \notin ReadOnlyOps /\ WantedLin(Trace[l].t))
 
-TNext == Silent \/ Consume
+(* second pass on a rejected history: what the model could return where the log says otherwise *)
+ExplainStep == /\ Explain /\ l <= N /\ Trace[l].op = "ret"
+               /\ LET t == Trace[l].t IN
+                  /\ pc[t] = "invoked" /\ call[t].op # "Commit"
+                  /\ Do(call[t])
+                  /\ PrintT(<<"EXPECTED", ToJson([l |-> l, t |-> t, res |-> ev'.res])>>)
+               /\ FALSE /\ UNCHANGED <<cvars, l, want>>
+
+TNext == LET E == EagerSet IN
+         IF E # {} THEN EagerLin(CHOOSE t \in E : \A u \in E : t <= u)
+                   ELSE ExplainStep \/ Silent \/ Consume
 TSpec == TInit /\ [][TNext]_tvars
 
 HighWater == PrintT(<<"HW", TLCGet(1)>>)
